@@ -313,9 +313,9 @@ def eval_item(item):
     for x in (1, 7):
         st, val, trace = _py(code, [x, True])
         r = hugrvm.run(h, "main", [hugrvm.to_vm(x), True], step_budget=200000)
-        if r.status in ("unsupported", "invariant", "budget"):
+        if r.status in ("unsupported", "invariant"):
             raise RuntimeError(f"hugrvm: {r.status} {r.detail}\n{src}")
-        want, got = _norm(trace), _norm(r.events)
+        want, got = _norm(trace), _norm(r.events)      # status "budget" = still running: differs from CPython below
         if st == "raise" or st == "panic":
             if r.status == "ok" or got != want:
                 res["dis"] = f"x={x}: CPython stops ({val}) after {want}; compiled program: {r.status} with {got}"
